@@ -38,7 +38,9 @@ Definition op_okb (h : sstate) (seen : list skey) (o : op) : bool :=
   | OOpen d stamp req now =>
       negb (memk (mkkey d stamp (trunc8 req) false) seen) && negb (memk (mkkey d stamp (trunc8 req) true) seen)
   | OWrite tag size now => (0 <? size)%Z
-  | OClose now => match swr h with Some w => negb (memk (twin (sw_key w)) seen) | None => true end
+  | OClose now => match swr h with
+                  | Some w => negb (memk (twin (sw_key w)) seen) && negb (memk (tmpk (twin (sw_key w))) seen)
+                  | None => true end
   | OUpdate d req tag size now => (0 <? size)%Z
   | ORename d d' =>
       negb (String.eqb d d') && wr_off h d
@@ -92,7 +94,8 @@ Record R2g (st : bool) (h : sstate) (H : hist) (L : pairing) : Prop := {
   r_keys : NoDup (keys (sst h));
   r_ids : NoDup (map a_id (h_runs H));
   r_idlt : forall a, In a (h_runs H) -> (a_id a < h_next H)%nat;
-  r_dirs : forall e, In e (sfiles (sst h)) -> shas_dir (sst h) (k_dag (fst e)) = true
+  r_dirs : forall e, In e (sfiles (sst h)) -> shas_dir (sst h) (k_dag (fst e)) = true;
+  r_plain : forall e, In e (sfiles (sst h)) -> k_tmp (fst e) = false      (* no temporary copy is left behind *)
 }.
 
 Notation R2 := (R2g true).
@@ -229,6 +232,9 @@ Proof.
   - rewrite ES. simpl. intros e Ie. unfold shas_dir. simpl. unfold upd_key in Ie. apply in_map_iff in Ie.
     destruct Ie as [e1 [E I1]]. pose proof (r_dirs _ _ _ _ R e1 I1) as Dd. unfold shas_dir in Dd.
     destruct (skey_eqb k (fst e1)) eqn:E5; subst; auto. simpl. apply skey_eqb_eq in E5. rewrite E5. auto.
+  - rewrite ES. simpl. intros e Ie. unfold upd_key in Ie. apply in_map_iff in Ie. destruct Ie as [e1 [E I1]].
+    pose proof (r_plain _ _ _ _ R e1 I1) as Tp.
+    destruct (skey_eqb k (fst e1)) eqn:E5; subst; auto. simpl. apply skey_eqb_eq in E5. rewrite E5. auto.
 Qed.
 
 (* R2 only looks at the components *)
@@ -281,9 +287,11 @@ Proof.
   assert (Nk : ~ In k (keys (sst h))) by (intro I; apply O1, IS, I).
   set (a := {| a_id := h_next H; a_dag := d; a_stamp := stamp; a_req := req; a_sts := []; a_mtime := now |}).
   exists (L ++ [((k, empty_file now), a)]).
-  change (sapply kname kpath h (OOpen d stamp req now))
-    with {| sst := run_sprim (run_sprim (sst h) (SMkdir d)) (SCreate k now);
-            swr := Some {| sw_key := k; sw_fd := Some k; sw_req := req |}; scch := scch h |}.
+  assert (SA : sapply kname kpath h (OOpen d stamp req now)
+               = {| sst := run_sprim (run_sprim (sst h) (SMkdir d)) (SCreate k now);
+                    swr := Some {| sw_key := k; sw_fd := Some k; sw_req := req |}; scch := scch h |}).
+  { unfold sapply. cbn [sprims]. fold k. rewrite (sopen_fresh (sst h) k now Nk). reflexivity. }
+  rewrite SA.
   set (s1 := run_sprim (sst h) (SMkdir d)).
   assert (F1 : sfiles s1 = sfiles (sst h)) by apply mkdir_files.
   assert (Nk1 : ~ In k (keys s1)) by (rewrite (keys_files s1 (sst h)); auto).
@@ -308,6 +316,9 @@ Proof.
     apply in_app_or in I. destruct I as [I|[I|[]]].
     + rewrite F1 in I. apply mkdir_dir_mono. apply (r_dirs _ _ _ _ R); auto.
     + subst e. simpl. apply mkdir_dir_self.
+  - intros e I. apply in_app_or in I. destruct I as [I|[I|[]]].
+    + rewrite F1 in I. apply (r_plain _ _ _ _ R); auto.
+    + subst e. reflexivity.
 Qed.
 
 (* ---- Write ---------------------------------------------------------------------------------------------------------- *)
@@ -419,7 +430,8 @@ Proof.
     pose proof (L_frun h H L R (e, a) Le) as FR. simpl in FR. destruct FR as [F1 [F2 [F3 [F4 [F5 [F6 F7]]]]]].
     assert (In e (filter P Fd)).
     { apply filter_In. split.
-      - apply filter_In. split. { apply (L_in_file h H L R (e, a)); auto. } rewrite F1, R1, String.eqb_refl. reflexivity.
+      - apply filter_In. split. { apply (L_in_file h H L R (e, a)); auto. } rewrite F1, R1, String.eqb_refl.
+        unfold in_patk. rewrite (r_plain _ _ _ _ R e). { reflexivity. } apply (L_in_file h H L R (e, a)); auto.
       - unfold P, reqP. rewrite F4. destruct (a_sts a) as [|p0 l0] eqn:Es; [discriminate|].
         destruct (last_opt (p0 :: l0)) eqn:El.
         + apply last_opt_in in El. rewrite Forall_forall in F7. rewrite (F7 p); auto. apply String.eqb_eq; auto.
@@ -523,8 +535,18 @@ Proof. intros N I. unfold load_pure. rewrite (in_sget s (fst e) (snd e)); auto. 
 (* ---- ordering: the files of one DAG sorted by what the regexp sees = its runs sorted by start stamp ---------------------------- *)
 Lemma undecorate {A} (key : A -> string) (l : list A) : map snd (sort_desc fst (map (fun e => (key e, e)) l)) = sort_desc key l.
 Proof. rewrite (sort_desc_map (fun e => (key e, e)) fst). rewrite map_map. simpl. apply map_id. Qed.
-Lemma sfilter_latest_eq l n : sfilter_latest l n = firstn n (sort_desc sts_of l).
+Lemma sfilter_latest_eq l n : sfilter_latest l n = firstn n (sort_desc sts_of (sdrop_compacted l)).
 Proof. unfold sfilter_latest. rewrite undecorate. reflexivity. Qed.
+Lemma filter_len_le {A} (f : A -> bool) l : (List.length (filter f l) <= List.length l)%nat.
+Proof. induction l as [|x l IH]; simpl; auto. destruct (f x); simpl; lia. Qed.
+(* dropCompacted changes nothing unless a file AND its compacted twin are listed *)
+Lemma sdrop_id l : (forall e m, In e l -> In m l -> k_c (fst e) = false -> twin (fst e) = fst m -> False) -> sdrop_compacted l = l.
+Proof.
+  intros Hn. unfold sdrop_compacted. transitivity (filter (fun _ : sent => true) l); [|apply filter_true]. apply filter_ext_in. intros e Ie.
+  unfold sdropped. destruct (k_c (fst e)) eqn:C; [reflexivity|]. simpl.
+  match goal with |- negb ?b = true => destruct b eqn:X end; [|reflexivity]. exfalso.
+  apply existsb_exists in X. destruct X as [m [Im E]]. apply skey_eqb_eq in E. exact (Hn e m Ie Im C E).
+Qed.
 Lemma NoDup_map_of_inj {A B} (f : A -> B) l : NoDup l -> (forall x y, In x l -> In y l -> f x = f y -> x = y) -> NoDup (map f l).
 Proof.
   induction l as [|a l IH]; simpl; intros N I; [constructor|]. inversion N as [|? ? Hn Hd]; subst. constructor.
@@ -550,7 +572,8 @@ Lemma Lf_in x : In x Lf -> In x L /\ k_dag (fst (fst x)) = d.
 Proof. unfold Lf. intros I. apply filter_In in I. destruct I as [I P]. apply andb_prop in P. destruct P as [P _]. apply String.eqb_eq in P. auto. Qed.
 Lemma dagday_pair x : In x L -> dagday d day (fst (fst x)) = rundagday d day (snd x).
 Proof.
-  intros I. pose proof (L_frun h H L R x I) as [F1 [F2 _]]. unfold dagday, rundagday, in_patk. rewrite F1, F2. reflexivity.
+  intros I. pose proof (L_frun h H L R x I) as [F1 [F2 _]]. unfold dagday, rundagday, in_patk.
+  rewrite (r_plain _ _ _ _ R (fst x) (L_in_file h H L R x I)). rewrite F1, F2. reflexivity.
 Qed.
 Lemma Lf_fst : map fst Lf = filter (fun e => dagday d day (fst e)) (sfiles (sst h)).
 Proof. unfold Lf. rewrite <- (r_fst _ _ _ _ R). rewrite filter_map_comm. reflexivity. Qed.
@@ -649,9 +672,26 @@ Proof.
   unfold loads. rewrite !flat_map_concat_map, !map_map. f_equal. apply map_ext_in. intros x Ix.
   rewrite (S_parse st h H L R d day x Ix). reflexivity.
 Qed.
-Lemma sfilter_latest_all l : sfilter_latest l (List.length l) = sort_desc sts_of l.
+Lemma sfilter_latest_all l : sfilter_latest l (List.length l) = sort_desc sts_of (sdrop_compacted l).
 Proof.
-  rewrite sfilter_latest_eq. apply firstn_all2. rewrite (Permutation_length (sort_desc_perm sts_of l)). auto.
+  rewrite sfilter_latest_eq. apply firstn_all2. rewrite (Permutation_length (sort_desc_perm sts_of (sdrop_compacted l))).
+  unfold sdrop_compacted. apply filter_len_le.
+Qed.
+(* in a state related to a run map with distinct start stamps no file is listed next to its compacted twin *)
+Lemma sdrop_glob_id st h H L d pk : R2g st h H L -> hist_okb H = true ->
+  sdrop_compacted (sglob kname (sst h) d pk) = sglob kname (sst h) d pk.
+Proof.
+  intros R O. apply sdrop_id. intros e m Ie Im C T.
+  assert (FI : forall x, In x (sglob kname (sst h) d pk) -> In x (sfiles (sst h))).
+  { intros x Ix. eapply Permutation_in in Ix; [|apply (sglob_perm _ h H L _ _ R)]. apply filter_In in Ix. apply Ix. }
+  destruct (file_in_L h H L R e (FI e Ie)) as [ae Le], (file_in_L h H L R m (FI m Im)) as [am Lm].
+  pose proof (L_frun h H L R (e, ae) Le) as [Fe1 [Fe2 _]]. pose proof (L_frun h H L R (m, am) Lm) as [Fm1 [Fm2 _]].
+  simpl in Fe1, Fe2, Fm1, Fm2. rewrite <- T in Fm1, Fm2. simpl in Fm1, Fm2.
+  assert (ae = am).
+  { apply (hist_ok_prop H); auto. apply (r_ids _ _ _ _ R). apply (L_in_run h H L R (e, ae)); auto. apply (L_in_run h H L R (m, am)); auto.
+    congruence. right. congruence. }
+  subst am. assert (E : (e, ae) = (m, ae)) by (apply (L_id_unique h H L R); auto). inversion E. subst m.
+  rewrite <- T in C. simpl in C. discriminate.
 Qed.
 
 Theorem latest_refines st h H L c d day : R2g st h H L -> hist_okb H = true -> cache_sound c (sst h) ->
@@ -668,8 +708,8 @@ Proof.
     destruct (stl_status a (HS a (or_introl eq_refl))) as [p [E1 E2]]. rewrite E2, E1. reflexivity. }
   destruct (sglob kname (sst h) d (PLatest day)) as [|e0 l0] eqn:G.
   - simpl. split; auto. rewrite <- SP, <- LS. reflexivity.
-  - rewrite sfilter_latest_all.
-    destruct (sload_first_sound (sst h) (sort_desc sts_of (e0 :: l0)) c CS) as [E CS']. split; auto.
+  - rewrite sfilter_latest_all. rewrite <- G in LS |- *. rewrite (sdrop_glob_id st h H L d (PLatest day) R O).
+    destruct (sload_first_sound (sst h) (sort_desc sts_of (sglob kname (sst h) d (PLatest day))) c CS) as [E CS']. split; auto.
     rewrite E, LS. exact SP.
 Qed.
 
@@ -684,8 +724,8 @@ Proof.
   { apply firstn_flat_stl. intros a Ia. eapply Permutation_in in Ia; [|apply sort_desc_perm]. apply filter_In in Ia. apply Ia. }
   destruct (sglob kname (sst h) d (PLatest None)) as [|e0 l0] eqn:G.
   - simpl. split; auto. fold stl. rewrite <- SP, <- LS. simpl. rewrite firstn_nil. reflexivity.
-  - rewrite sfilter_latest_all.
-    destruct (sload_upto_sound (sst h) (sort_desc sts_of (e0 :: l0)) n c CS) as [E CS']. split; auto.
+  - rewrite sfilter_latest_all. rewrite <- G in LS |- *. rewrite (sdrop_glob_id st h H L d (PLatest None) R O).
+    destruct (sload_upto_sound (sst h) (sort_desc sts_of (sglob kname (sst h) d (PLatest None))) n c CS) as [E CS']. split; auto.
     rewrite E, LS. exact SP.
 Qed.
 
@@ -725,6 +765,23 @@ Proof. unfold upd_key. apply map_app. Qed.
 Lemma upd_key_single k g f : upd_key k g [(k, f)] = [(k, g f)].
 Proof. unfold upd_key. simpl. rewrite skey_eqb_refl. reflexivity. Qed.
 
+(* the compaction steps on a store without kc and without a stale temporary copy: the copy appears as the last file, then k goes *)
+Lemma close_run s k pl now : ~ In (twin k) (keys s) -> ~ In (tmpk (twin k)) (keys s) -> shas_dir s (k_dag (twin k)) = true ->
+  run_sprims s ([SUnlink (tmpk (twin k)); SMkdir (k_dag (twin k)); SCreate (tmpk (twin k)) now]
+                ++ map (fun c => SAppend (tmpk (twin k)) c now) (chunks_of pl) ++ [SRename (tmpk (twin k)) (twin k); SUnlink k])
+  = run_sprims {| sdirs := sdirs s; sfiles := sfiles s ++ [(twin k, {| items := [Rec pl]; ftail := TNone; mtime := now |})] |} [SUnlink k].
+Proof.
+  intros Nkc Nkt Dk. set (kc := twin k) in *. set (kt := tmpk kc) in *.
+  rewrite run_sprims_app. cbn [run_sprims fold_left].
+  rewrite (unlink_absent _ _ Nkt), (mkdir_noop _ _ Dk), (create_fresh _ kt now Nkt).
+  fold (run_sprims {| sdirs := sdirs s; sfiles := sfiles s ++ [(kt, empty_file now)] |}
+          (map (fun c => SAppend kt c now) (chunks_of pl) ++ [SRename kt kc; SUnlink k])).
+  rewrite run_sprims_app, run_appends. cbn [sfiles sdirs].
+  rewrite upd_key_app, (upd_key_absent kt _ (sfiles s)) by exact Nkt. rewrite upd_key_single.
+  rewrite appends_status by reflexivity. cbn [items empty_file app].
+  cbn [run_sprims fold_left]. rewrite rename_last; auto. apply tmpk_neq. reflexivity.
+Qed.
+
 Lemma sim_close h H L seen now :
   R2 h H L -> incl (keys (sst h)) seen -> op_okb h seen (OClose now) = true ->
   exists L', R2 (sapply kname kpath h (OClose now)) (sp_apply H (OClose now)) L'.
@@ -744,15 +801,18 @@ Proof.
   destruct (parse (snd e0)) as [pl|] eqn:Pp.
   - (* compaction *)
     set (k := sw_key w) in *. set (kc := twin k).
+    apply andb_prop in O. destruct O as [O _].
     apply negb_true_iff in O. apply memk_false in O. fold k in O. fold kc in O.
     assert (Nkc : ~ In kc (keys (sst h))) by (intro X; apply O, IS, X).
     assert (Dk : shas_dir (sst h) (k_dag kc) = true).
     { change (k_dag kc) with (k_dag k). rewrite <- E1. apply (r_dirs _ _ _ _ R). apply (L_in_file h H L R (e0, a0)); auto. }
-    assert (RS : forall s a b rest, run_sprims s (a :: b :: rest) = run_sprims (run_sprim (run_sprim s a) b) rest) by reflexivity.
-    rewrite RS, run_sprims_app. change (k_dag k) with (k_dag kc).
-    rewrite (mkdir_noop _ _ Dk), (create_fresh _ kc now Nkc), run_appends. cbn [sfiles sdirs].
-    rewrite upd_key_app, (upd_key_absent kc _ (sfiles (sst h))) by exact Nkc. rewrite upd_key_single.
-    rewrite appends_status by reflexivity. cbn [items empty_file app].
+    assert (Nkt : ~ In (tmpk kc) (keys (sst h))) by (apply tmpk_absent, (r_plain _ _ _ _ R)).
+    change (k_dag k) with (k_dag kc).
+    match goal with |- context [run_sprims (sst h) ?ps] =>
+      change (run_sprims (sst h) ps) with
+        (run_sprims (sst h) ([SUnlink (tmpk (twin k)); SMkdir (k_dag (twin k)); SCreate (tmpk (twin k)) now]
+                ++ map (fun c => SAppend (tmpk (twin k)) c now) (chunks_of pl) ++ [SRename (tmpk (twin k)) (twin k); SUnlink k])) end.
+    rewrite (close_run (sst h) k pl now Nkc Nkt Dk). fold kc.
     set (fc := {| items := [Rec pl]; ftail := TNone; mtime := now |}).
     unfold run_sprims. simpl fold_left. rewrite filter_app. simpl filter.
     assert (NE : skey_eqb k kc = false).
@@ -797,6 +857,9 @@ Proof.
       apply in_app_or in Ie. destruct Ie as [Ie|[Ie|[]]].
       * apply filter_In in Ie. destruct Ie as [Ie _]. apply (r_dirs _ _ _ _ R); auto.
       * subst e. simpl. exact Dk.
+    + intros e Ie. apply in_app_or in Ie. destruct Ie as [Ie|[Ie|[]]].
+      * apply filter_In in Ie. destruct Ie as [Ie _]. apply (r_plain _ _ _ _ R); auto.
+      * subst e. reflexivity.
   - (* nothing to compact: the file has no parseable status *)
     exists L. apply (R2_drop_wr h H L); auto.
     simpl. unfold upd_run. rewrite <- (map_id (h_runs H)) at 2. apply map_ext_in. intros a Ia.
@@ -839,38 +902,78 @@ Proof.
 Qed.
 
 (* ---- Update (manual status update) ---------------------------------------------------------------------------------------------------- *)
-Lemma sim_update h H L seen d req tag size now :
-  R2 h H L -> hist_okb H = true -> op_okb h seen (OUpdate d req tag size now) = true ->
-  exists L', R2 (sapply kname kpath h (OUpdate d req tag size now)) (sp_apply H (OUpdate d req tag size now)) L'.
+(* writer.open + the status on an existing file: a torn tail (a crash state) is terminated first, so the status always becomes the
+   file's last complete line *)
+Lemma sopen_appends s k f p now : sget s k = Some f -> shas_dir s (k_dag k) = true ->
+  exists g, run_sprims s (sopen s k now ++ map (fun c => SAppend k c now) (chunks_of p))
+            = {| sdirs := sdirs s; sfiles := upd_key k g (sfiles s) |}
+         /\ (exists its, g f = {| items := its ++ [Rec p]; ftail := TNone; mtime := now |})
+         /\ (forall fd, fold_left strack_fd (sopen s k now ++ map (fun c => SAppend k c now) (chunks_of p)) fd = fd).
 Proof.
-  intros R O _. pose proof (find_refines_pair _ h H L d req R O) as F.
-  unfold sapply. simpl sprims. simpl sp_apply.
+  intros G Dk.
+  assert (Ik : In k (keys s)). { apply shas_true. unfold shas. rewrite G. reflexivity. }
+  assert (RS : forall s a b rest, run_sprims s (a :: b :: rest) = run_sprims (run_sprim (run_sprim s a) b) rest) by reflexivity.
+  assert (TR : forall cs fd, fold_left strack_fd (SMkdir (k_dag k) :: SCreate k now :: map (fun c => SAppend k c now) cs) fd = fd).
+  { intros cs fd. cbn [fold_left]. assert (X : strack_fd (strack_fd fd (SMkdir (k_dag k))) (SCreate k now) = fd) by (destruct fd; reflexivity).
+    rewrite X. apply strack_appends. }
+  destruct (ftail f) eqn:T.
+  - rewrite (sopen_clean s k f now G T).
+    change ([SMkdir (k_dag k); SCreate k now] ++ map (fun c => SAppend k c now) (chunks_of p))
+      with (SMkdir (k_dag k) :: SCreate k now :: map (fun c => SAppend k c now) (chunks_of p)).
+    exists (appends (chunks_of p) now). split; [|split].
+    + rewrite RS, (mkdir_noop _ _ Dk), (create_noop _ k now Ik), run_appends. reflexivity.
+    + exists (items f). apply appends_status. exact T.
+    + apply TR.
+  - rewrite (sopen_torn s k f now G) by (rewrite T; discriminate).
+    change ([SMkdir (k_dag k); SCreate k now; SAppend k CNl now] ++ map (fun c => SAppend k c now) (chunks_of p))
+      with (SMkdir (k_dag k) :: SCreate k now :: map (fun c => SAppend k c now) (CNl :: chunks_of p)).
+    exists (appends (CNl :: chunks_of p) now). split; [|split].
+    + rewrite RS, (mkdir_noop _ _ Dk), (create_noop _ k now Ik), run_appends. reflexivity.
+    + exists (items f ++ [Junk (tsize (ftail f) + 1)]). unfold appends. cbn [fold_left]. fold (appends (chunks_of p) now (append_chunk f CNl now)).
+      rewrite appends_status; unfold append_chunk; rewrite T; reflexivity.
+    + apply TR.
+  - rewrite (sopen_torn s k f now G) by (rewrite T; discriminate).
+    change ([SMkdir (k_dag k); SCreate k now; SAppend k CNl now] ++ map (fun c => SAppend k c now) (chunks_of p))
+      with (SMkdir (k_dag k) :: SCreate k now :: map (fun c => SAppend k c now) (CNl :: chunks_of p)).
+    exists (appends (CNl :: chunks_of p) now). split; [|split].
+    + rewrite RS, (mkdir_noop _ _ Dk), (create_noop _ k now Ik), run_appends. reflexivity.
+    + exists (items f ++ [Rec p0]). unfold appends. cbn [fold_left]. fold (appends (chunks_of p) now (append_chunk f CNl now)).
+      rewrite appends_status; unfold append_chunk; rewrite T; reflexivity.
+    + apply TR.
+Qed.
+
+Lemma sim_update_g st h H L d req tag size now :
+  R2g st h H L -> hist_okb H = true ->
+  exists L', R2g st (sapply kname kpath h (OUpdate d req tag size now)) (sp_apply H (OUpdate d req tag size now)) L'.
+Proof.
+  intros R O. pose proof (find_refines_pair _ h H L d req R O) as F.
+  unfold sapply. cbn [sprims]. simpl sp_apply.
   destruct (sq_find kname kpath (sst h) d req) as [|k p] eqn:Q.
   - exists L. destruct F as [F|F].
     + subst req. simpl. exact R.
     + rewrite F. destruct (String.eqb req ""); exact R.
   - destruct F as [Nr [e [a [I [E1 [E2 [E3 E4]]]]]]]. apply String.eqb_neq in Nr. rewrite Nr, E4.
     set (p' := {| p_req := req; p_tag := tag; p_size := size |}).
-    assert (RS : forall s a b rest, run_sprims s (a :: b :: rest) = run_sprims (run_sprim (run_sprim s a) b) rest) by reflexivity.
     assert (Ie : In e (sfiles (sst h))) by (apply (L_in_file h H L R (e, a)); auto).
     assert (Dk : shas_dir (sst h) (k_dag k) = true). { rewrite <- E1. apply (r_dirs _ _ _ _ R); auto. }
-    assert (Ik : In k (keys (sst h))). { rewrite <- E1. unfold keys. apply in_map. auto. }
-    change ([SMkdir (k_dag k); SCreate k now] ++ map (fun c => SAppend k c now) (chunks_of p'))
-      with (SMkdir (k_dag k) :: SCreate k now :: map (fun c => SAppend k c now) (chunks_of p')).
-    rewrite RS, (mkdir_noop _ _ Dk), (create_noop _ k now Ik), run_appends.
-    exists (map (upd_pair k (appends (chunks_of p') now) (add_status p' now)) L).
+    assert (G0 : sget (sst h) k = Some (snd e)). { rewrite <- E1. apply (L_sget h H L R e a I). }
+    destruct (sopen_appends (sst h) k (snd e) p' now G0 Dk) as [g [RUN [[its GF] TRK]]].
+    fold p'. rewrite RUN.
+    exists (map (upd_pair k g (add_status p' now)) L).
     apply find_some in E4. destruct E4 as [Ia IR]. unfold is_run in IR.
     apply andb_prop in IR. destruct IR as [IR _]. apply andb_prop in IR. destruct IR as [_ IR]. apply String.eqb_eq in IR.
-    eapply (R2_update true h H L k (a_id a)); eauto.
+    eapply (R2_update st h H L k (a_id a)); eauto.
     + pose proof (L_frun h H L R (e, a) I) as FR. simpl in FR. destruct FR as [F1 [F2 [F3 [F4 [F5 [F6 F7]]]]]].
-      rewrite appends_status by auto. unfold frun. simpl. rewrite <- E1. repeat split; auto.
+      rewrite GF. unfold frun. simpl. rewrite <- E1. repeat split; auto.
       * rewrite parse_rec_snoc, last_opt_snoc. reflexivity.
       * apply Forall_app. split; auto.
     + apply pres_add.
-    + left. simpl. split; auto. destruct (swr h) as [w|]; [|reflexivity]. apply strack_wr_keep. intros k0 _.
-      constructor; [exact Logic.I|]. constructor; [exact Logic.I|]. apply Forall_forall. intros x Hx. apply in_map_iff in Hx.
-      destruct Hx as [c [Ec _]]. subst x. exact Logic.I.
+    + left. simpl. split; auto. destruct (swr h) as [w|]; [|reflexivity]. unfold strack_wr. rewrite TRK. destruct w; reflexivity.
 Qed.
+Lemma sim_update h H L seen d req tag size now :
+  R2 h H L -> hist_okb H = true -> op_okb h seen (OUpdate d req tag size now) = true ->
+  exists L', R2 (sapply kname kpath h (OUpdate d req tag size now)) (sp_apply H (OUpdate d req tag size now)) L'.
+Proof. intros R O _. apply (sim_update_g true h H L); auto. Qed.
 
 (* ---- retention ---------------------------------------------------------------------------------------------------------------------------- *)
 Lemma sglob_member st h H L d e : R2g st h H L -> (In e (sglob kname (sst h) d PAll) <-> In e (sfiles (sst h)) /\ k_dag (fst e) = d).
@@ -879,7 +982,7 @@ Proof.
   - intros I. eapply Permutation_in in I; [|exact P]. apply filter_In in I. destruct I as [I Q].
     apply andb_prop in Q. destruct Q as [Q _]. apply String.eqb_eq in Q. auto.
   - intros [I Q]. eapply Permutation_in; [apply Permutation_sym, P|]. apply filter_In. split; auto.
-    rewrite Q, String.eqb_refl. reflexivity.
+    rewrite Q, String.eqb_refl. unfold in_patk. rewrite (r_plain _ _ _ _ R e I). reflexivity.
 Qed.
 
 Definition dagold (d : string) (cutoff : Z) (e : sent) : bool := String.eqb (k_dag (fst e)) d && (mtime (snd e) <? cutoff)%Z.
@@ -943,6 +1046,7 @@ Proof.
   - apply NoDup_map_filter. apply (r_ids _ _ _ _ R).
   - intros a Ia. apply filter_In in Ia. destruct Ia as [Ia _]. apply (r_idlt _ _ _ _ R); auto.
   - intros e Ie. apply filter_In in Ie. destruct Ie as [Ie _]. apply (r_dirs _ _ _ _ R) in Ie. exact Ie.
+  - intros e Ie. apply filter_In in Ie. destruct Ie as [Ie _]. apply (r_plain _ _ _ _ R); auto.
 Qed.
 
 
@@ -1081,6 +1185,8 @@ Proof.
     destruct (String.eqb (k_dag (fst e)) d) eqn:Ed; subst e2; simpl.
     + unfold s1. rewrite mkdir_dir_self. simpl. apply negb_true_iff. apply String.eqb_neq. auto.
     + unfold s1. rewrite mkdir_dir_mono by (apply (r_dirs _ _ _ _ R); auto). rewrite Ed. reflexivity.
+  - intros e2 I2. unfold fl2 in I2. apply in_map_iff in I2. destruct I2 as [e [Ee Ie]].
+    pose proof (r_plain _ _ _ _ R e Ie) as Tp. destruct (String.eqb (k_dag (fst e)) d); subst e2; simpl; auto.
 Qed.
 
 
